@@ -21,9 +21,10 @@ type kfEntry struct {
 	Obligation string // exact name or prefix ending in *
 	Text       string
 	Line       string
+	Witness    string // Go test file (relative to the verification root) that reproduces the finding natively
 }
 
-var kfRe = regexp.MustCompile(`^KNOWN-FINDING:\s+property=(\S+)\s+id=(\S+)\s+obligation=(\S+)\s+(.*)$`)
+var kfRe = regexp.MustCompile(`^KNOWN-FINDING:\s+property=(\S+)\s+id=(\S+)\s+obligation=(\S+)\s+(?:witness=(\S+)\s+)?(.*)$`)
 var fixedRe = regexp.MustCompile(`^fixed:\s+property=(\S+)\s+(\S+)\s+(.*)$`)
 
 func loadKnownFindings(path string) []*kfEntry {
@@ -37,7 +38,7 @@ func loadKnownFindings(path string) []*kfEntry {
 	for sc.Scan() {
 		l := strings.TrimSpace(sc.Text())
 		if m := kfRe.FindStringSubmatch(l); m != nil {
-			out = append(out, &kfEntry{Property: m[1], ID: m[2], Obligation: m[3], Text: m[4], Line: l})
+			out = append(out, &kfEntry{Property: m[1], ID: m[2], Obligation: m[3], Witness: m[4], Text: m[5], Line: l})
 		} else if m := fixedRe.FindStringSubmatch(l); m != nil {
 			out = append(out, &kfEntry{Fixed: true, Property: m[1], ID: m[2], Text: m[3], Line: l})
 		}
@@ -67,7 +68,10 @@ type checkOpts struct {
 	noEvidence                               bool
 }
 
+type carveOut struct{ id, fn, pred string }
+
 type checkResult struct {
+	carveOuts  []carveOut
 	obls       []*Obligation
 	vcs        []*VC
 	failed     []*Obligation
@@ -76,6 +80,7 @@ type checkResult struct {
 	loadErr    error
 	wall       float64
 	solverTime float64
+	knownCarve int
 }
 
 func cmdCheck(args []string) int {
@@ -136,6 +141,11 @@ func runCheck(o *checkOpts) *checkResult {
 		}
 		res.vcs = append(res.vcs, vc)
 		res.obls = append(res.obls, vc.obls...)
+		if c := e.contracts[n]; c != nil {
+			for _, ex := range c.Excepts {
+				res.carveOuts = append(res.carveOuts, carveOut{id: ex.Name, fn: n, pred: ex.Src})
+			}
+		}
 	}
 	tmp, _ := os.MkdirTemp("", "govc")
 	if o.keep != "" {
@@ -149,7 +159,7 @@ func runCheck(o *checkOpts) *checkResult {
 		opt.timeoutS = 60
 		opt.confirm = true
 	}
-	dischargeAll(res.obls, opt, 16)
+	dischargeAll(res.obls, opt, 8)
 	for _, ob := range res.obls {
 		res.solverTime += ob.Time
 		ok := ob.Status == "proved"
@@ -226,6 +236,48 @@ func report(o *checkOpts, res *checkResult) int {
 			continue
 		}
 		violations = append(violations, ob)
+	}
+	// carve-outs assumed by contracts: each must be a listed finding; its witness
+	// is replayed against the real code
+	seenCO := map[string]bool{}
+	for _, co := range res.carveOuts {
+		if seenCO[co.id] {
+			continue
+		}
+		seenCO[co.id] = true
+		var hit *kfEntry
+		for _, k := range kfs {
+			if !k.Fixed && k.ID == co.id {
+				hit = k
+			}
+		}
+		if hit == nil {
+			path := writeReplay(o, prop, "carve-out-"+co.id, map[string]any{"obligation": "unlisted carve-out " + co.id + " in the contract of " + co.fn, "predicate": co.pred})
+			fmt.Printf("VIOLATION property=%s replay=%s no-failing-input-found\n", prop, path)
+			exit = 1
+			continue
+		}
+		status := "witness not replayed"
+		if hit.Witness != "" {
+			src, err := os.ReadFile(filepath.Join(o.root, hit.Witness))
+			if err == nil {
+				out, err := runOverlayTestNamed(o.repo, string(src), "TestGovcWitness")
+				switch {
+				case err != nil:
+					status = "witness could not be run: " + err.Error()
+				case strings.Contains(out, "GOVC-WITNESS: REPRODUCED"):
+					status = "witness reproduced on the real code"
+				default:
+					status = "witness no longer reproduces (finding may have been repaired)"
+				}
+			}
+		}
+		res.knownCarve++
+		if !strings.Contains(status, "no longer") {
+			fmt.Printf("KNOWN-FINDING: property=%s id=%s obligation=%s %s [%s]\n", prop, hit.ID, hit.Obligation, hit.Text, status)
+		} else {
+			fmt.Printf("note: known finding %s: %s\n", hit.ID, status)
+		}
 	}
 	for _, ob := range violations {
 		rp := replayObligation(o, ob)
